@@ -46,6 +46,46 @@ class ConcreteSource:
         return bytes(items)
 
 
+class BoundarySource:
+    """concrete inputs built from a byte pattern: used for a handful of native runs of every obligation (all-zero, all-one,
+    alternating ... inputs).  They catch what the interpreter cannot encode (e.g. floating point sneaking into integer code)."""
+
+    def __init__(self, pat):
+        self.pat = pat
+        self.n = 0
+
+    def _byte(self):
+        self.n += 1
+        p = self.pat
+        if p == "alt":
+            return 0xFF if self.n % 2 else 0x00
+        if p == "lowhigh":
+            return 0x0F if self.n % 2 else 0xF0
+        return p
+
+    def bv(self, name, n):
+        return bytes(self._byte() for _ in range(n))
+
+    def atom(self, name, n):
+        self.n += 1
+        return bytes([(0xA0 + self.n) % 256]) * n
+
+    def int(self, name, w, lo=None, hi=None):
+        v = self._byte() % (1 << w)
+        if hi is not None:
+            v = min(v, hi)
+        if lo is not None:
+            v = max(v, lo)
+        return v
+
+    def bool(self, name):
+        self.n += 1
+        return bool(self.n % 2)
+
+    def mk_bytes(self, items):
+        return bytes(items)
+
+
 class SymbolicSource:
     def __init__(self, e):
         self.e = e
@@ -98,6 +138,35 @@ def mk_engine():
     return e
 
 
+class _Recorder:
+    """re-runs a builder on a BoundarySource while recording name -> value, so that the failing inputs can be replayed"""
+
+    def __init__(self, _src):
+        pass
+
+    def values(self, builder, params, pat):
+        src = BoundarySource(pat)
+        rec = {}
+
+        class R:
+            def bv(s, name, n):
+                rec[name] = src.bv(name, n); return rec[name]
+
+            def atom(s, name, n):
+                rec[name] = src.atom(name, n); return rec[name]
+
+            def int(s, name, w, lo=None, hi=None):
+                rec[name] = src.int(name, w, lo, hi); return rec[name]
+
+            def bool(s, name):
+                rec[name] = src.bool(name); return rec[name]
+
+            def mk_bytes(s, items):
+                return bytes(items)
+        builder(R(), **params)
+        return rec
+
+
 def native_call(harness, args):
     try:
         r = harness(*args)
@@ -119,6 +188,21 @@ def run_obligation(ob, timeout_s=600):
         harness = _resolve(ob["harness"])
         builder = _resolve(ob["builder"])
         params = ob.get("params", {})
+        # native boundary runs (plain CPython, real keccak): a failing one is a replayable counterexample by itself
+        for pat in (0x00, 0xFF, "alt", "lowhigh"):
+            bsrc = BoundarySource(pat)
+            try:
+                bargs = builder(bsrc, **params)
+            except Exception:
+                continue
+            okb, db_ = native_call(harness, bargs)
+            out["native_runs"] = out.get("native_runs", 0) + 1
+            if not okb:
+                rec = _Recorder(bsrc)
+                out.update(status="counterexample", detail="native boundary run failed: " + db_, paths=0,
+                           counterexample={"values": _jsonable(rec.values(builder, params, pat)), "path_kind": "native-boundary", "detail": db_})
+                out["wall_s"] = round(time.time() - t0, 2)
+                return out
         e = mk_engine()
         e.solver.set("timeout", int(ob.get("query_timeout_ms", 120000)))
         args = builder(SymbolicSource(e), **params)
